@@ -1362,6 +1362,57 @@ def runCase (c : Case) : Verdict :=
     | .ok tags =>
       if res != c.res then .diff s!"WriteRecord results {c.res} differ from the model's {res}"
       else .ok (["dir22"] ++ tags ++ opsTags c.ops ++ (if res.contains '1' then ["rejected"] else []))
+  | .rd =>
+    -- the uncut file is judged exactly like a `dir22` case; then the real reader's report on the (cut) file
+    let implHdr := (c.f22.map splitHeader22).getD []
+    let F := fmt22 p implHdr
+    let dops := c.ops.map (fun o => match o with
+      | .c => (none, 'C') | .h => (none, 'H') | .f => (none, 'F') | .x => (none, 'X')
+      | .w22 r => (some (some r), 'W') | _ => (none, '?'))
+    let (res, f, recs) := runDirect F false dops
+    match judge "ljh22" c.f22 (some f.disk) implHdr.length (chk22 p recs) (hdr22Agrees p) recs.length recs with
+    | .error v => v
+    | .ok tags =>
+      if res != c.res then .diff s!"WriteRecord results {c.res} differ from the model's {res}" else
+      match c.f22, c.rdr with
+      | some file, some ir =>
+        let cutAt := match c.cut with
+          | (1, a) => a * file.length / 1000
+          | (2, a) => file.length - a
+          | _ => file.length
+        let cf := file.take cutAt
+        let errName (e : RErr) : String := match e with
+          | .magic => "magic" | .version => "version" | .noend => "noend"
+        match readerParse cf with
+        | .error e =>
+          if ir.openRes != errName e then .diff s!"OpenReader: real {ir.openRes}, model {errName e}"
+          else .ok (["rd", "reader-open-" ++ errName e] ++ tags)
+        | .ok o =>
+          if ir.openRes != "ok" then .diff s!"OpenReader: real {ir.openRes}, model ok" else
+          let fin := match o.fin with | .eof => "eof" | .ueof => "ueof"
+          let fOk (tok : Option Bytes) (bits : Nat) : Bool := match tok with
+            | some t => nearestDouble t bits
+            | none => bits == 0
+          if !(ir.ver == o.hdr.version && ir.ws == o.hdr.wordSize && ir.npre == o.hdr.presamples &&
+               ir.ns == o.hdr.samples && ir.ch == o.hdr.channel) then
+            .diff "reader header fields (version, word size, presamples, samples, channel) differ from the model reader"
+          else if !(fOk o.hdr.tsoffTok ir.tso && fOk o.hdr.tbTok ir.tb) then
+            .diff "reader timestamp offset / timebase is not a nearest double of the text the model reader scanned"
+          else if ir.hl != o.headerLength || ir.rl != o.recordLength then
+            .diff s!"reader header/record length {ir.hl}/{ir.rl} differ from the model reader's {o.headerLength}/{o.recordLength}"
+          else if ir.pulses != o.pulses then .diff "the pulses NextPulse returned differ from the model reader's"
+          else if ir.fin != fin then .diff s!"NextPulse ended with {ir.fin}, the model reader with {fin}"
+          else
+            let recsize := 16 + 2 * p.nsamp.toNat
+            if cutAt == file.length then
+              if readerExpect p implHdr.length recs o then .ok (["rd", "reader-exact"] ++ tags)
+              else if o.headerLength > implHdr.length then .ok (["rd", "reader-ate-body-bytes"] ++ tags)
+              else .diff "the reader (real = model) does not return what the writer wrote, and no CR/LF byte at the start of the body explains it"
+            else
+              .ok (["rd", "reader-cut-record", "reader-end-" ++ fin] ++
+                   (if (cf.length - o.headerLength) % recsize != 0 && o.fin == .eof then ["reader-eof-on-partial-record"] else []) ++
+                   (if o.headerLength > implHdr.length then ["reader-ate-body-bytes"] else []) ++ tags)
+      | _, _ => .bad "rd case without file or reader report"
   | .dir3 =>
     let implHdr := (c.f3.map splitHeaderJson).getD []
     let F := fmt3 implHdr
